@@ -27,6 +27,9 @@ def record(tw, rng, n_chains, stats):
             v = gen.logu(rng, 1e-12, 1e6)
         k = rng.choice([2.0, 0.5, 3.7, 1e-3, 1e3, gen.logu(rng, 1e-3, 1e3)])
         u0 = rng.choice(UNITS)
+        if rng.random() < 0.08:
+            # the Permeance itself is stated in a unit the library does not know (mis-spelt, another convention): converting it must raise
+            u0 = rng.choice(["kg/(m2 h kPa)", "Barrer", "gpu", "si", "furlong/fortnight"])
         a = pv.Permeance(value=v, units=u0)
         b = pv.Permeance(value=k * v, units=u0)
         tr = tw.new()
